@@ -51,7 +51,10 @@ class SideBar(TemplateElement):
         else:
             # The object is a class/function or attribute, we docuement the module that contains the object, not it's direct parent. 
             # 
-            parent = self.ob.module
+            # (not self.ob.module: what lies below a class that has been re-exported still answers the module it was defined in)
+            parent = self.ob.parent
+            while parent is not None and not isinstance(parent, Module):
+                parent = parent.parent
             
         if parent:
             yield SideBarSection(loader=TagLoader(tag), ob=parent, 
